@@ -249,6 +249,7 @@ def run(ctx):
     ctx.ob("R09.2", "skip_false_if_block|comment-saving-paired", ok, sk.loc(offs[0]) if offs else sk.loc(),
            "_save_comments is cleared before scanning and set again on every exit")
     manifest_keys(ctx)
+    numbers_skipped_whole(ctx)
 
 def manifest_keys(ctx):
     """R09.3: #ifdef / defined() / expansion look a macro up by its bare name.  A freshly made CPPManifest parses that
@@ -316,4 +317,34 @@ def manifest_keys(ctx):
             ctx.ob("R09.3", "%s|registers-under-own-name" % (f.name if "::" in f.name else f.file.split("/")[-1] + "::" + f.name), ok, f.loc(c),
                    "%s is filed under `%s`%s" % (v["n"], show(key)[:40], "" if ok else ": not the name the manifest parsed for itself"))
     ctx.floor("R09.3", "sites registering a new manifest", n, 3)
+
+
+
+
+def numbers_skipped_whole(ctx):
+    """R09.4: the controlling expression of #if is text; expand_manifests() walks it and replaces identifiers (macros,
+    and - in #if - undefined names by 0).  A number must be stepped over as a whole, otherwise the letters inside it
+    (0x10, 0b11, 1L, 10u, 1e5) are taken for an identifier and the condition is evaluated on mangled text."""
+    db = ctx.db
+    ctx.rule("R09.4", "in expand_manifests a digit starts a number that is consumed together with its alphanumeric tail (a branch on isdigit(expr[p]) containing a loop that advances over isalnum(expr[p])), so identifier scanning never starts inside a number")
+    fn = db.fn("CPPPreprocessor::expand_manifests")
+    found = []
+    for node in fn.walk():
+        if node.get("k") != "if":
+            continue
+        atom, pos = cond_atom(fn, node["c"])
+        conds = [x for x in walk(node["c"]) if x.get("k") == "call" and callee_short(x) == "isdigit"]
+        if not conds:
+            continue
+        # the then-branch advances the cursor over the alphanumeric tail
+        loops = [lp for lp in walk(node.get("then") or {}) if lp.get("k") in ("while", "for", "do")
+                 and any(y.get("k") == "call" and callee_short(y) in ("isalnum", "isxdigit") for y in walk(lp.get("c") or {}))
+                 and any(y.get("k") == "un" and y.get("op") in ("++", "post++") for y in walk(lp.get("body") or {}))]
+        if loops:
+            found.append(node)
+    ctx.ob("R09.4", "expand_manifests|number-consumed-whole", bool(found), fn.loc(found[0]) if found else fn.loc(),
+           "a number is %sstepped over together with its letters" % ("" if found else "NOT "))
+    # and the identifier branch comes from a character test that a digit fails (isalpha / '_')
+    ident = [node for node in fn.walk() if node.get("k") == "if" and any(y.get("k") == "call" and callee_short(y) == "isalpha" for y in walk(node["c"]))]
+    ctx.ob("R09.4", "expand_manifests|identifier-starts-with-letter", bool(ident), fn.loc(ident[0]) if ident else fn.loc(), "identifier scanning starts at isalpha()/_ only")
 
